@@ -37,3 +37,35 @@ package pptx
 //@     invariant para.IsNumbered == entry(para.IsNumbered) && para.IsBullet == entry(para.IsBullet) && para.Level == entry(para.Level)
 //@   loop 1:
 //@     invariant para.IsNumbered == entry(para.IsNumbered) && para.IsBullet == entry(para.IsBullet) && para.Level == entry(para.Level)
+
+// ---- C11: excluding header/footer placeholders deletes exactly those blocks: every non-empty paragraph of every other
+// block of every selected slide is still written (`written` counts the paragraph-text writes: the 6th WriteString) ----
+//@ func isFooterPlaceholder results (r)
+//@   property C11
+//@   flags pure
+//@   ensures footer_kinds: r <==> (phType == "ftr" || phType == "dt" || phType == "sldNum")
+//@ func isHeaderPlaceholder results (r)
+//@   property C11
+//@   flags pure
+//@   ensures header_kind: r <==> phType == "hdr"
+//@ spec rec prefix func pptxParas(ps []Paragraph, n int) int = n <= 0 ? 0 : pptxParas(ps, n - 1) + (ps[n-1].Text != "" ? 1 : 0)
+//@ spec func pptxSkipped(b TextBlock, titles bool, exF bool, exH bool) bool = (b.IsTitle && titles) || (exF && isFooterPlaceholder(b.Placeholder)) || (exH && isHeaderPlaceholder(b.Placeholder))
+//@ spec rec func pptxBlocks(bs []TextBlock, n int, titles bool, exF bool, exH bool) int = n <= 0 ? 0 : pptxBlocks(bs, n - 1, titles, exF, exH) + (pptxSkipped(bs[n-1], titles, exF, exH) ? 0 : pptxParas(bs[n-1].Paragraphs, len(bs[n-1].Paragraphs)))
+//@ func (*Reader) TextWithOptions results (txt, err)
+//@   property C11
+//@   flags nosafety
+//@   count written: WriteString(s) when $ord == 6
+//@   loop 1:
+//@     step every_eligible_paragraph_of_the_slide_is_written: written == prev(written) + pptxBlocks(slide.Content, len(slide.Content), opts.IncludeTitles, opts.ExcludeFooters, opts.ExcludeHeaders)
+//@   loop 2:
+//@     invariant written == entry(written) + pptxBlocks(slide.Content, $i, opts.IncludeTitles, opts.ExcludeFooters, opts.ExcludeHeaders)
+//@   loop 3:
+//@     invariant written == entry(written) + pptxParas(block.Paragraphs, $i)
+//@   loop 4:
+//@     invariant written == entry(written)
+//@   loop 5:
+//@     invariant written == entry(written)
+//@   loop 6:
+//@     invariant written == entry(written)
+//@   loop 7:
+//@     invariant written == entry(written)
